@@ -5,10 +5,10 @@ import (
 	"sync"
 
 	"github.com/gogo/protobuf/proto"
-	"github.com/onosproject/onos-lib-go/pkg/errors"
 	configapi "github.com/onosproject/onos-api/go/onos/config/v3"
 	cfgstore "github.com/onosproject/onos-config/pkg/store/v3/configuration"
 	txstore "github.com/onosproject/onos-config/pkg/store/v3/transaction"
+	"github.com/onosproject/onos-lib-go/pkg/errors"
 
 	"verif/harness/fakes"
 )
@@ -254,7 +254,7 @@ func (v *cfgView) UpdateStatus(ctx context.Context, c *configapi.Configuration) 
 	if err := v.g.enter("cfg.UpdateStatus", true); err != nil {
 		return err
 	}
-	if c.Applied.Values != nil && v.g != nil && v.g.s != nil && v.g.s.midCallCrash(v.g, "cfg.UpdateStatus") {
+	if c.Applied.Values != nil && v.g != nil && v.g.s != nil && v.appliedValuesChange(c) && v.g.s.midCallCrash(v.g, "cfg.UpdateStatus") {
 		stale := cloneCfg(c)
 		stale.Version += 1 << 40
 		_ = v.st.Cfg.UpdateStatus(ctx, &stale)
@@ -263,14 +263,41 @@ func (v *cfgView) UpdateStatus(ctx context.Context, c *configapi.Configuration) 
 		v.g.s.crashNow(v.g)
 		return errCrashed
 	}
+	hadValues := c.Applied.Values != nil
 	if err := v.st.Cfg.UpdateStatus(ctx, c); err != nil {
 		v.st.refused(v.g, "cfg.UpdateStatus", err)
+		if hadValues && errors.IsConflict(err) && v.st.afterWrite != nil {
+			// the real store has already written the applied values when the record
+			// update is refused (C15's F-config-failed-write-leaks-values)
+			v.st.afterWrite("cfg.UpdateStatus(values only: record refused)")
+		}
 		return err
 	}
 	v.st.noteWrite("cfg.UpdateStatus")
 	v.emit(configapi.ConfigurationEvent_UPDATED, c.ID)
 	return nil
 }
+
+// appliedValuesChange reports whether the call carries applied values that
+// differ from the stored ones (only then do the store's two sub-writes differ
+// from one).
+func (v *cfgView) appliedValuesChange(c *configapi.Configuration) bool {
+	cur, err := v.st.Cfg.Get(context.Background(), c.ID)
+	if err != nil {
+		return false
+	}
+	if len(cur.Applied.Values) != len(c.Applied.Values) {
+		return true
+	}
+	for p, a := range c.Applied.Values {
+		b, ok := cur.Applied.Values[p]
+		if !ok || a.Index != b.Index || a.Deleted != b.Deleted {
+			return true
+		}
+	}
+	return false
+}
+
 func (v *cfgView) Watch(ctx context.Context, ch chan<- configapi.ConfigurationEvent, opts ...cfgstore.WatchOption) error {
 	_, replay := cfgstore.WatchOptionsForVerif(opts...)
 	var rep []configapi.ConfigurationEvent
